@@ -9,7 +9,7 @@ namespace UtilModel
 structure Bcast where
   cur  : Option Nat := none
   next : Nat := 0
-deriving DecidableEq, Repr
+deriving DecidableEq, Repr, Hashable
 
 namespace Bcast
 
